@@ -18,8 +18,8 @@ F_DER = "generate_derivative_real_spherical_harmonics"
 F_SOL = "solid_harmonics"
 F_C2S = "convert_cart_to_sph"
 REQUIRED_HOOKS = ["utils." + f for f in (F_REC, F_SCI, F_DER, F_SOL, F_C2S)]
-REQUIRED_FAMILIES = ["values", "derivative", "solid", "cart2sph", "chain"]
-BUDGET = {"quick": 300, "thorough": 2400}
+REQUIRED_FAMILIES = ["values", "derivative", "solid", "cart2sph", "chain", "library-callers"]
+BUDGET = {"quick": 600, "thorough": 6000}
 RULE = (
     "Post-conditions attached to the five public functions of grid.utils (all bindings, fire on every call incl. the "
     "internal ones): shape; values == independent normalised recursion sph.ref_Y (abs 1e-11(1+lmax)); recursion and SciPy "
@@ -27,10 +27,10 @@ RULE = (
     "routine == longdouble Chebyshev differentiation of the IMPLEMENTED harmonics in theta (everywhere) and phi (off the "
     "poles) and d/dtheta == -m Y_l,-m of the oracle; solid harmonics == sqrt(4pi/(2l+1)) r^l ref_Y and (z,x,y) for l=1; "
     "convert_cart_to_sph: ranges, r, round trip through the parametrisation, centre -> (0,0,0). One case = one "
-    "(family, lmax, angle class, repetition k): lmax in {0..12,20,35,60,100,150} (thorough +200,250); angle classes random, "
+    "(family, lmax, angle class, repetition k): lmax in {0..12,20,35,60,100,150,200} (thorough also 16,25,45,80,125,151,250 and values at 400; 151 is where float64 intermediates would first overflow); angle classes random, "
     "wide (azimuth in [-20,20], polar + 2 pi k), poles (exact and within 1e-9/1e-12), equator, lattice (multiples of pi/4, "
     "pi/6), nearpole (1e-3..1e-9), reflected polar angles (observed only). cart2sph: centre None/origin/random/far/list x "
-    "point classes random/axis/equator/centre/nearpole/scales. A case is non-trivial when at least one decided oracle "
+    "point classes random/axis/equator/centre/nearpole/scales; library-callers: AtomGrid.radial_component_splines and Grid.moments('pure') drive the monitored functions through their other bindings on the library's own grid angles. A case is non-trivial when at least one decided oracle "
     "evaluation ran on it; reflected-angle cases are marked trivial."
 )
 ASSUMPTIONS = [
@@ -49,7 +49,7 @@ LEVEL_TEXT = (
 TECHNIQUE = "runtime monitoring: post-conditions on grid.utils harmonics/conversion functions with an independent recursion oracle, addition theorem and longdouble numerical differentiation"
 
 LMAX_QUICK = list(range(13)) + [20, 35, 60, 100, 150]
-LMAX_THOROUGH = LMAX_QUICK + [200, 250]
+LMAX_THOROUGH = list(range(13)) + [16, 20, 25, 35, 45, 60, 80, 100, 125, 150, 151, 200, 250]
 MAX_ELEMS = 4.0e6  # rows*points handled per oracle evaluation inside a post-condition (subsample above)
 
 ORIG = {}
@@ -123,6 +123,13 @@ def _maxabs(a):
     return float(np.max(np.abs(a)))
 
 
+def _chk(ctx, clause, subject, measure, tol=0.0, sig=None, detail=None):
+    """ctx.check + a counter of the evaluations that came within a factor 100 of the tolerance (calibration evidence)."""
+    if tol and not isinstance(measure, (bool, np.bool_)) and float(measure) <= tol and float(measure) > 0.01 * tol:
+        ctx.count("margin-below-100x:" + clause)
+    return ctx.check(clause, subject, measure, tol, sig=sig, detail=detail)
+
+
 _seen_obs = {}
 
 
@@ -144,7 +151,7 @@ def _check_values(ctx, fname, res, lmax, theta, phi):
     ph = np.asarray(phi, dtype=float)
     n = len(th)
     shape = tuple(getattr(res, "shape", ()))
-    ok = ctx.check("shape", fname, shape == ((lmax + 1) ** 2, n), sig="wrong-shape", detail={"shape": list(shape), "lmax": lmax, "n": n})
+    ok = _chk(ctx, "shape", fname, shape == ((lmax + 1) ** 2, n), sig="wrong-shape", detail={"shape": list(shape), "lmax": lmax, "n": n})
     if not ok:
         return False
     if n == 0:
@@ -164,7 +171,7 @@ def _check_values(ctx, fname, res, lmax, theta, phi):
         rows = np.where(np.isnan(ed), np.inf, ed).max(axis=1)
         worst = float(rows.max())
         sig = _first_bad(rows, tol)
-        ctx.check("values-match-definition", fname, worst, tol, sig=sig, detail=None if sig is None else dict(_worst(ed, th[decided], ph[decided]), lmax=lmax))
+        _chk(ctx, "values-match-definition", fname, worst, tol, sig=sig, detail=None if sig is None else dict(_worst(ed, th[decided], ph[decided]), lmax=lmax))
         ctx.count("points-decided:" + fname, int(decided.sum()))
         if pole.any():
             ctx.count("points-at-poles:" + fname, int((pole & decided).sum()))
@@ -177,7 +184,7 @@ def _check_values(ctx, fname, res, lmax, theta, phi):
         resid = o8.addition_residual(dY, lmax, dth, dph, perm)
         ta = tol_addition(lmax)
         bad = np.where(~(resid <= ta))[0]
-        ctx.check("addition-theorem", fname, float(np.where(np.isnan(resid), np.inf, resid).max()), ta, sig=None if len(bad) == 0 else f"first-bad-l={int(bad[0])}", detail=None if len(bad) == 0 else {"lmax": lmax, "first_bad_l": int(bad[0]), "n_bad_l": int(len(bad)), "resid": float(resid[bad[0]])})
+        _chk(ctx, "addition-theorem", fname, float(np.where(np.isnan(resid), np.inf, resid).max()), ta, sig=None if len(bad) == 0 else f"first-bad-l={int(bad[0])}", detail=None if len(bad) == 0 else {"lmax": lmax, "first_bad_l": int(bad[0]), "n_bad_l": int(len(bad)), "resid": float(resid[bad[0]])})
     refl = ~decided
     if refl.any():
         dev = float(np.nanmax(err[:, refl]))
@@ -217,7 +224,7 @@ def _post_rec(ctx):
         err = np.abs(np.asarray(res[:, idx] - other, dtype=float))
         rows = np.where(np.isnan(err), np.inf, err).max(axis=1)
         sig = _first_bad(rows, tol_values(lmax))
-        ctx.check("implementations-agree", "recursion-vs-scipy", float(rows.max()), tol_values(lmax), sig=sig, detail=None if sig is None else dict(_worst(err, th[idx], ph[idx]), lmax=lmax))
+        _chk(ctx, "implementations-agree", "recursion-vs-scipy", float(rows.max()), tol_values(lmax), sig=sig, detail=None if sig is None else dict(_worst(err, th[idx], ph[idx]), lmax=lmax))
 
     return post
 
@@ -251,7 +258,7 @@ def _post_der(ctx):
         n = len(th)
         nrow = (lmax + 1) ** 2
         shape = tuple(getattr(res, "shape", ()))
-        if not ctx.check("shape", F_DER, shape == (2, nrow, n), sig="wrong-shape", detail={"shape": list(shape), "lmax": lmax, "n": n}):
+        if not _chk(ctx, "shape", F_DER, shape == (2, nrow, n), sig="wrong-shape", detail={"shape": list(shape), "lmax": lmax, "n": n}):
             return
         if n == 0:
             ctx.count("empty-input-calls")
@@ -259,7 +266,7 @@ def _post_der(ctx):
         decided, pole = o8.classify_polar(ph)
         # finite everywhere on the decided domain, poles included
         fin = np.isfinite(np.asarray(res[:, :, decided], dtype=float))
-        ctx.check("derivative-finite", F_DER, bool(fin.all()), sig="non-finite", detail={"lmax": lmax})
+        _chk(ctx, "derivative-finite", F_DER, bool(fin.all()), sig="non-finite", detail={"lmax": lmax})
         idx = np.where(decided)[0]
         if len(idx) == 0:
             _observe(ctx, "reflected polar angle: derivative routine called on reflected angles only (not decided)", lmax=lmax)
@@ -277,7 +284,7 @@ def _post_der(ctx):
         rows = np.where(np.isnan(e), np.inf, e).max(axis=1)
         t0 = tol_values(lmax) * (1 + lmax)
         sig = _first_bad(rows, t0)
-        ctx.check("dtheta-vs-oracle", F_DER, float(rows.max()), t0, sig=sig, detail=None if sig is None else dict(_worst(e, th[idx], ph[idx]), lmax=lmax))
+        _chk(ctx, "dtheta-vs-oracle", F_DER, float(rows.max()), t0, sig=sig, detail=None if sig is None else dict(_worst(e, th[idx], ph[idx]), lmax=lmax))
         # both derivatives against numerical differentiation of the implemented harmonics (longdouble)
         rho = o8.numdiff_radius(lmax)
         nn = 24
@@ -299,13 +306,13 @@ def _post_der(ctx):
             ctx.count("numdiff-points", k)
         rows = np.where(np.isnan(e_th), np.inf, e_th).max(axis=1)
         sig = _first_bad(rows, tol)
-        ctx.check("dtheta-is-derivative", F_DER, float(rows.max()), tol, sig=sig, detail=None if sig is None else dict(_worst(e_th, th[idx], ph[idx]), lmax=lmax))
+        _chk(ctx, "dtheta-is-derivative", F_DER, float(rows.max()), tol, sig=sig, detail=None if sig is None else dict(_worst(e_th, th[idx], ph[idx]), lmax=lmax))
         off = ~pole[idx]
         if off.any():
             eo = e_ph[:, off]
             rows = np.where(np.isnan(eo), np.inf, eo).max(axis=1)
             sig = _first_bad(rows, tol)
-            ctx.check("dphi-is-derivative", F_DER, float(rows.max()), tol, sig=sig, detail=None if sig is None else dict(_worst(eo, th[idx][off], ph[idx][off]), lmax=lmax))
+            _chk(ctx, "dphi-is-derivative", F_DER, float(rows.max()), tol, sig=sig, detail=None if sig is None else dict(_worst(eo, th[idx][off], ph[idx][off]), lmax=lmax))
             ctx.count("dphi-points-decided", int(off.sum()))
         if (~off).any():
             ep = e_ph[:, ~off]
@@ -336,7 +343,7 @@ def _post_sol(ctx):
         r, th, ph = (np.asarray(c, dtype=float) for c in pts_a.T)
         n = len(r)
         shape = tuple(getattr(res, "shape", ()))
-        if not ctx.check("shape", F_SOL, shape == ((lmax + 1) ** 2, n), sig="wrong-shape", detail={"shape": list(shape), "lmax": lmax, "n": n}):
+        if not _chk(ctx, "shape", F_SOL, shape == ((lmax + 1) ** 2, n), sig="wrong-shape", detail={"shape": list(shape), "lmax": lmax, "n": n}):
             return
         if n == 0:
             return
@@ -356,17 +363,17 @@ def _post_sol(ctx):
         rows = np.where(np.isnan(e), np.inf, e).max(axis=1)
         tol = tol_values(lmax)
         sig = _first_bad(rows, tol)
-        ctx.check("solid-harmonics-scaled", F_SOL, float(rows.max()), tol, sig=sig, detail=None if sig is None else dict(_worst(e, th, ph), lmax=lmax, r_at_worst=float(r[np.argmax(np.where(np.isnan(e), np.inf, e).max(axis=0))])))
+        _chk(ctx, "solid-harmonics-scaled", F_SOL, float(rows.max()), tol, sig=sig, detail=None if sig is None else dict(_worst(e, th, ph), lmax=lmax, r_at_worst=float(r[np.argmax(np.where(np.isnan(e), np.inf, e).max(axis=0))])))
         zero = r == 0
         if zero.any():
             Rz = np.asarray(R[:, zero], dtype=float)
             good0 = bool(np.all(np.abs(Rz[0] - 1.0) <= 1e-14)) and (lmax == 0 or bool(np.all(Rz[1:] == 0)))
-            ctx.check("solid-harmonics-at-origin", F_SOL, good0, sig="r=0-not-(1,0,0,...)", detail={"lmax": lmax, "head": Rz[: min(4, len(Rz)), 0]})
+            _chk(ctx, "solid-harmonics-at-origin", F_SOL, good0, sig="r=0-not-(1,0,0,...)", detail={"lmax": lmax, "head": Rz[: min(4, len(Rz)), 0]})
         if lmax >= 1:
             xyz = np.asarray(o8.sph_to_unit(th, ph) * r.astype(o8.LD)[:, None], dtype=float)
             got = np.asarray(R[1:4], dtype=float)
             want = np.stack([xyz[:, 2], xyz[:, 0], xyz[:, 1]])
-            ctx.check("solid-l1-is-zxy", F_SOL, float(np.max(np.abs(got - want) / np.maximum(r, 1e-300)[None, :], initial=0.0)), 1e-13, sig="l=1-not-(z,x,y)")
+            _chk(ctx, "solid-l1-is-zxy", F_SOL, float(np.max(np.abs(got - want) / np.maximum(r, 1e-300)[None, :], initial=0.0)), 1e-13, sig="l=1-not-(z,x,y)")
 
     return post
 
@@ -388,7 +395,7 @@ def _post_c2s(ctx):
             return
         n = len(P)
         shape = tuple(getattr(res, "shape", ()))
-        if not ctx.check("shape", F_C2S, shape == (n, 3), sig="wrong-shape", detail={"shape": list(shape), "n": n}):
+        if not _chk(ctx, "shape", F_C2S, shape == (n, 3), sig="wrong-shape", detail={"shape": list(shape), "n": n}):
             return
         if n == 0:
             return
@@ -397,15 +404,15 @@ def _post_c2s(ctx):
         rel64 = np.asarray(P, dtype=float) - np.asarray(C, dtype=float)
         r_ref = np.sqrt(np.sum(rel * rel, axis=1))
         at_c = np.all(rel64 == 0, axis=1)
-        ctx.check("cart2sph-finite", F_C2S, bool(np.all(np.isfinite(S))), sig="non-finite", detail={"n_bad": int(np.sum(~np.isfinite(S)))})
+        _chk(ctx, "cart2sph-finite", F_C2S, bool(np.all(np.isfinite(S))), sig="non-finite", detail={"n_bad": int(np.sum(~np.isfinite(S)))})
         rng_ok = (S[:, 0] >= 0) & (S[:, 1] >= -np.pi) & (S[:, 1] <= np.pi) & (S[:, 2] >= 0) & (S[:, 2] <= np.pi)
-        ctx.check("cart2sph-ranges", F_C2S, bool(np.all(rng_ok | ~np.isfinite(S).all(axis=1))), sig="angle-out-of-range", detail={"first": S[~rng_ok][:1]})
+        _chk(ctx, "cart2sph-ranges", F_C2S, bool(np.all(rng_ok | ~np.isfinite(S).all(axis=1))), sig="angle-out-of-range", detail={"first": S[~rng_ok][:1]})
         if at_c.any():
             Sc = S[at_c]
-            ctx.check("cart2sph-centre", F_C2S, bool(np.all(Sc[:, 0] == 0) and np.all(Sc[:, 2] == 0)), sig="centre-not-r0-phi0", detail={"first": Sc[:1]})
+            _chk(ctx, "cart2sph-centre", F_C2S, bool(np.all(Sc[:, 0] == 0) and np.all(Sc[:, 2] == 0)), sig="centre-not-r0-phi0", detail={"first": Sc[:1]})
             pos = ~np.signbit(rel64[at_c, 0])
             if pos.any():
-                ctx.check("cart2sph-centre", F_C2S + ":azimuth", bool(np.all(Sc[pos, 1] == 0)), sig="centre-theta-not-0", detail={"first": Sc[pos][:1]})
+                _chk(ctx, "cart2sph-centre", F_C2S + ":azimuth", bool(np.all(Sc[pos, 1] == 0)), sig="centre-theta-not-0", detail={"first": Sc[pos][:1]})
             if (~pos).any():
                 _observe(ctx, "cart2sph: azimuth at the centre for a negative-zero x offset (arctan2 of signed zeros), not decided", theta=float(Sc[~pos][0, 1]))
         m = ~at_c & np.isfinite(S).all(axis=1)
@@ -416,13 +423,13 @@ def _post_c2s(ctx):
         rr64 = np.asarray(rr, dtype=float)
         delta = o8.EPS * (1 + mag / rr64)
         e_r = np.abs(np.asarray(Sm[:, 0] - rr, dtype=float)) / rr64 / delta
-        ctx.check("cart2sph-radius", F_C2S, float(e_r.max()), 8.0, sig="r-wrong", detail={"worst_units_of_delta": float(e_r.max())})
+        _chk(ctx, "cart2sph-radius", F_C2S, float(e_r.max()), 8.0, sig="r-wrong", detail={"worst_units_of_delta": float(e_r.max())})
         sinp = np.asarray(np.sqrt(relm[:, 0] ** 2 + relm[:, 1] ** 2) / rr, dtype=float)
         tol_ang = 50 * delta / np.maximum(sinp, np.sqrt(delta)) + 28 * delta
         recon = o8.sph_to_unit(Sm[:, 1], Sm[:, 2]) * rr[:, None]
         e_rt = np.asarray(np.sqrt(np.sum((recon - relm) ** 2, axis=1)) / rr, dtype=float)
         worst = int(np.argmax(e_rt / tol_ang))
-        ctx.check("cart2sph-roundtrip", F_C2S, float((e_rt / tol_ang).max()), 1.0, sig="angles-do-not-reproduce-point", detail={"point": np.asarray(P, dtype=float)[m][worst], "center": np.asarray(C, dtype=float), "returned": Sm[worst], "err_over_r": float(e_rt[worst]), "tol": float(tol_ang[worst])})
+        _chk(ctx, "cart2sph-roundtrip", F_C2S, float((e_rt / tol_ang).max()), 1.0, sig="angles-do-not-reproduce-point", detail={"point": np.asarray(P, dtype=float)[m][worst], "center": np.asarray(C, dtype=float), "returned": Sm[worst], "err_over_r": float(e_rt[worst]), "tol": float(tol_ang[worst])})
         half = e_rt > 1e3 * delta
         if half.any():
             _observe(ctx, "cart2sph: polar angle from arccos(z/r) loses up to half the digits within ~1e-7 of the poles (round-trip error recorded, tolerance follows the conditioning of arccos)", max_err_over_r=float(e_rt[half].max()), sin_phi=float(sinp[half][np.argmax(e_rt[half])]))
@@ -464,29 +471,39 @@ def _n_deriv(lmax, tier):
 
 def cases(tier, seed):
     out = []
-    lmaxs = LMAX_QUICK if tier == "quick" else LMAX_THOROUGH
-    reps = 2 if tier == "quick" else 8
+    quick = tier == "quick"
+    lmaxs = LMAX_QUICK + [200] if quick else LMAX_THOROUGH
+    reps = 2 if quick else 8
     for lmax in lmaxs:
         w = (lmax + 1.0) ** 2
+        nv, nd = _n_values(lmax, tier), _n_deriv(lmax, tier)
         for kind in ANGLE_KINDS:
             nrep = 1 if kind == "lattice" else reps
             for k in range(nrep):
                 fam = "values-reflected-observed" if kind == "reflected" else "values"
-                out.append((fam, {"lmax": lmax, "kind": kind, "k": k, "n": _n_values(lmax, tier)}, 1.0 + 3e-5 * w * _n_values(lmax, tier)))
+                out.append((fam, {"lmax": lmax, "kind": kind, "k": k, "n": nv}, 1.0 + 3e-5 * w * nv))
         for kind in DERIV_KINDS:
             nrep = 1 if kind == "lattice" else reps
+            if quick and lmax > 150:  # quick: the derivative above 150 only on two angle classes, once
+                nrep = 1 if kind in ("random", "poles") else 0
             for k in range(nrep):
-                out.append(("derivative", {"lmax": lmax, "kind": kind, "k": k, "n": _n_deriv(lmax, tier)}, 1.0 + 1e-4 * w * (1 + 0.5 * _n_deriv(lmax, tier))))
+                out.append(("derivative", {"lmax": lmax, "kind": kind, "k": k, "n": nd}, 1.0 + 1e-4 * w * (1 + 0.5 * nd)))
         for kind in ("random", "wide", "poles", "lattice"):
             for k in range(1 if kind == "lattice" else reps):
-                out.append(("solid", {"lmax": lmax, "kind": kind, "k": k, "n": max(8, _n_values(lmax, tier) // 2)}, 1.0 + 1.5e-5 * w * _n_values(lmax, tier)))
+                out.append(("solid", {"lmax": lmax, "kind": kind, "k": k, "n": max(8, nv // 2)}, 1.0 + 1.5e-5 * w * nv))
         for k in range(reps):
-            out.append(("chain", {"lmax": lmax, "k": k, "n": max(8, _n_values(lmax, tier) // 2)}, 1.0 + 3e-5 * w * _n_values(lmax, tier)))
+            out.append(("chain", {"lmax": lmax, "k": k, "n": max(8, nv // 2)}, 1.0 + 3e-5 * w * nv))
+    if not quick:  # one step beyond the advertised range of the design, values only
+        for kind in ("random", "poles", "wide"):
+            for k in range(2):
+                out.append(("values", {"lmax": 400, "kind": kind, "k": k, "n": 6}, 1.0 + 3e-5 * 401.0**2 * 6))
     out.append(("derivative-reflected-observed", {"lmax": 4, "kind": "reflected", "k": 0, "n": 12}, 1.0))
     for c in C2S_CENTERS:
         for p in C2S_POINTS:
-            for k in range(2 if tier == "quick" else 12):
+            for k in range(2 if quick else 12):
                 out.append(("cart2sph", {"center": c, "points": p, "k": k}, 0.5))
+    for k in range(4 if quick else 24):
+        out.append(("library-callers", {"k": k}, 0.6))
     out.append(("cart2sph-negzero-observed", {}, 0.5))
     out.append(("edge", {"what": "empty"}, 0.5))
     out.append(("edge", {"what": "single-point"}, 0.5))
@@ -597,13 +614,13 @@ def run_case(ctx, family, params):
             rows = np.where(np.isnan(e), np.inf, e).max(axis=1)
             tol = tol_values(lmax)
             sig = _first_bad(rows, tol)
-            ctx.check("chain-cartesian-to-harmonics", "convert_cart_to_sph+" + F_REC, float(rows.max()), tol, sig=sig, detail=None if sig is None else dict(_worst(e, s[:, 1], s[:, 2]), lmax=lmax))
+            _chk(ctx, "chain-cartesian-to-harmonics", "convert_cart_to_sph+" + F_REC, float(rows.max()), tol, sig=sig, detail=None if sig is None else dict(_worst(e, s[:, 1], s[:, 2]), lmax=lmax))
             if Z is not None and tuple(Z.shape) == ref.shape:
                 scale = o8.solid_scale(lmax, np.asarray(rn, dtype=float))
                 e = np.abs(np.asarray(np.asarray(Z, dtype=o8.LD) / scale - ref, dtype=float))
                 rows = np.where(np.isnan(e), np.inf, e).max(axis=1)
                 sig = _first_bad(rows, tol)
-                ctx.check("chain-cartesian-to-harmonics", "convert_cart_to_sph+" + F_SOL, float(rows.max()), tol, sig=sig, detail=None if sig is None else dict(_worst(e, s[:, 1], s[:, 2]), lmax=lmax))
+                _chk(ctx, "chain-cartesian-to-harmonics", "convert_cart_to_sph+" + F_SOL, float(rows.max()), tol, sig=sig, detail=None if sig is None else dict(_worst(e, s[:, 1], s[:, 2]), lmax=lmax))
     elif family == "cart2sph":
         _run_c2s(ctx, gu, params)
     elif family == "cart2sph-negzero-observed":
@@ -612,6 +629,8 @@ def run_case(ctx, family, params):
             s = gu.convert_cart_to_sph(pts)
             ctx.case_note("returned", s)
         ctx.trivial()
+    elif family == "library-callers":
+        _run_callers(ctx, params)
     elif family == "edge":
         _run_edge(ctx, gu, params)
     else:
@@ -682,18 +701,44 @@ def _run_c2s(ctx, gu, params):
     delta = o8.EPS * (1 + mag / r[m])
     sinp = np.abs(np.sin(ph[m]))
     e_r = np.abs(s[m, 0] - r[m]) / r[m] / delta
-    ctx.check("cart2sph-inverts-parametrisation", F_C2S + ":r", float(e_r.max()), 16.0, sig="r-wrong")
+    _chk(ctx, "cart2sph-inverts-parametrisation", F_C2S + ":r", float(e_r.max()), 16.0, sig="r-wrong")
     tol_p = 100 * delta / np.maximum(sinp, np.sqrt(delta))
     e_p = np.abs(s[m, 2] - ph[m]) / tol_p
     w = int(np.argmax(e_p))
-    ctx.check("cart2sph-inverts-parametrisation", F_C2S + ":phi", float(e_p.max()), 1.0, sig="phi-wrong", detail={"phi": float(ph[m][w]), "got": float(s[m, 2][w]), "tol": float(tol_p[w]), "center_kind": ck, "points_kind": pk})
+    _chk(ctx, "cart2sph-inverts-parametrisation", F_C2S + ":phi", float(e_p.max()), 1.0, sig="phi-wrong", detail={"phi": float(ph[m][w]), "got": float(s[m, 2][w]), "tol": float(tol_p[w]), "center_kind": ck, "points_kind": pk})
     az = sinp > 200 * delta  # the azimuth is undefined on the axis
     if az.any():
         tol_t = 100 * delta[az] / sinp[az]
         e_t = np.abs(o8.wrap_pi(s[m, 1][az] - th[m][az])) / tol_t
         w = int(np.argmax(e_t))
-        ctx.check("cart2sph-inverts-parametrisation", F_C2S + ":theta", float(e_t.max()), 1.0, sig="theta-wrong", detail={"theta": float(th[m][az][w]), "got": float(s[m, 1][az][w]), "tol": float(tol_t[w]), "center_kind": ck, "points_kind": pk})
+        _chk(ctx, "cart2sph-inverts-parametrisation", F_C2S + ":theta", float(e_t.max()), 1.0, sig="theta-wrong", detail={"theta": float(th[m][az][w]), "got": float(s[m, 1][az][w]), "tol": float(tol_t[w]), "center_kind": ck, "points_kind": pk})
     ctx.case_note("max_phi_err", float(np.abs(s[m, 2] - ph[m]).max()))
+
+
+def _run_callers(ctx, params):
+    """The monitors are attached to every binding: drive them through AtomGrid / Grid.moments, i.e. on the angles the
+    library itself produces for its grids (exact poles, equator, negative zeros, r = 0 shells)."""
+    from grid.atomgrid import AtomGrid
+    from grid.basegrid import OneDGrid
+
+    rng = ctx.rng
+    k = params["k"]
+    nsh = 4
+    r = np.sort(rng.uniform(0.1, 3.0, nsh))
+    if k % 2:
+        r[0] = 0.0
+    degs = [int(v) for v in rng.choice([3, 5, 7, 9, 11, 13, 15], nsh)]
+    center = np.zeros(3) if k % 3 == 0 else rng.normal(size=3)
+    before = dict(ctx.hooks)
+    with ctx.guard("no-exception", "library-callers"):
+        at = AtomGrid(OneDGrid(r, np.ones(nsh), (0, np.inf)), degrees=degs, center=center, method="lebedev" if k % 4 < 2 else "spherical")
+        d = at.points - center
+        f = np.exp(-np.sum(d * d, axis=1)) * (1.0 + d[:, 0] + d[:, 1] * d[:, 2])
+        at.convert_cartesian_to_spherical()
+        at.radial_component_splines(f)
+        at.moments(3, np.array([center, center + 0.3]), f, type_mom="pure")
+    for h in ("utils." + F_C2S, "utils." + F_REC, "utils." + F_SOL):
+        _chk(ctx, "monitors-see-library-callers", h, ctx.hooks.get(h, 0) > before.get(h, 0), sig="binding-not-monitored")
 
 
 def _run_edge(ctx, gu, params):
